@@ -25,7 +25,7 @@ def fitsI (i : Instr) : Bool :=
 
 /-- the compiler with its overflow check -/
 def compileChecked (ss : List CStmt) : Option (List Nat) :=
-  let code := compileP 0 0 ss
+  let code := compileP 0 0 [] ss
   if code.all fitsI then some (encode code) else none
 
 /-- decode one instruction from a byte stream: opcode byte, then `read_operands` -/
@@ -108,18 +108,18 @@ theorem decodeAll_encode : ∀ (is : List Instr), is.all fitsI = true → ∀ fu
 — some instruction has an operand that does not fit its declared width — or the code it
 produces decodes to exactly the instructions it meant -/
 theorem compile_lossless_or_rejected (ss : List CStmt) :
-    (compileChecked ss = none ∧ ∃ i ∈ compileP 0 0 ss, fitsI i = false) ∨
+    (compileChecked ss = none ∧ ∃ i ∈ compileP 0 0 [] ss, fitsI i = false) ∨
     (∃ bytes, compileChecked ss = some bytes ∧
-      decodeAll ((compileP 0 0 ss).length + 1) bytes =
-        some ((compileP 0 0 ss).map fun i => (opcodeByName (instrOp i).1, (instrOp i).2))) := by
+      decodeAll ((compileP 0 0 [] ss).length + 1) bytes =
+        some ((compileP 0 0 [] ss).map fun i => (opcodeByName (instrOp i).1, (instrOp i).2))) := by
   unfold compileChecked
-  by_cases h : (compileP 0 0 ss).all fitsI = true
+  by_cases h : (compileP 0 0 [] ss).all fitsI = true
   · right
     exact ⟨_, by simp [h], decodeAll_encode _ h _ (Nat.lt_succ_self _)⟩
   · left
     refine ⟨by simp [h], ?_⟩
-    have hex : ∃ i ∈ compileP 0 0 ss, fitsI i = false := by
-      generalize compileP 0 0 ss = code at h
+    have hex : ∃ i ∈ compileP 0 0 [] ss, fitsI i = false := by
+      generalize compileP 0 0 [] ss = code at h
       induction code with
       | nil => simp at h
       | cons i is ih =>
